@@ -2,11 +2,14 @@ package tree
 
 import (
 	"fmt"
+	"github.com/dadrus/heimdall/internal/rules/rule"
 	"math/rand/v2"
 	"sort"
 	"strings"
 	"sync"
+	"sync/atomic"
 	"testing"
+	"time"
 
 	rconfig "github.com/dadrus/heimdall/internal/rules/config"
 	"github.com/dadrus/heimdall/internal/verif/vkit/app"
@@ -210,10 +213,16 @@ func genVersion(rng *rand.Rand, pool []string, src string, prev version) version
 	return fix(v)
 }
 
-func toRuleSet(src string, v version) *rconfig.RuleSet {
+// toRuleSet: with shortIDs the rule ids are unique within their rule set only ("r0" in every source), as heimdall demands; the
+// monitor tells the rules apart by source id + rule id (answers).
+func toRuleSet(src string, v version, shortIDs bool) *rconfig.RuleSet {
 	var rules []rconfig.Rule
 	for _, r := range v {
-		rl := mkRule(r.ID, r.Expr, r.Methods, boolp(r.BT))
+		id := r.ID
+		if shortIDs {
+			id = strings.TrimPrefix(id, src+"-")
+		}
+		rl := mkRule(id, r.Expr, r.Methods, boolp(r.BT))
 		for _, e := range r.Extra {
 			rl.Matcher.Routes = append(rl.Matcher.Routes, rconfig.Route{Path: e})
 		}
@@ -285,10 +294,29 @@ func c06Probes() []probeReq {
 	return out
 }
 
+// findQualified answers with "<source>-<rule id>" whether or not the rule id itself carries the source.
+func findQualified(repo rule.Repository, method, path string) (id string, caps map[string]string) {
+	defer func() {
+		if x := recover(); x != nil {
+			id, caps = fmt.Sprintf("<panic: %v>", x), nil
+		}
+	}()
+	ctx := newLookupCtx(method, path)
+	rl, err := repo.FindRule(ctx)
+	if err != nil || rl == nil {
+		return "", nil
+	}
+	id = rl.ID()
+	if rl.SrcID() != "config" && !strings.HasPrefix(id, rl.SrcID()+"-") {
+		id = rl.SrcID() + "-" + id
+	}
+	return id, ctx.Request().URL.Captures
+}
+
 func answers(a *app.App, probes []probeReq) []string {
 	out := make([]string, len(probes))
 	for i, pr := range probes {
-		id, caps := find(a.Repo, pr.m, pr.p)
+		id, caps := findQualified(a.Repo, pr.m, pr.p)
 		if id == "" {
 			id = "<none>"
 		}
@@ -364,6 +392,7 @@ func TestC06(t *testing.T) {
 	// every history has its own PRNG stream (a function of seed and history index only), so the histories can be
 	// executed by a pool of workers without losing reproducibility
 	app.ParallelStarts = true
+	var blocked atomic.Bool
 	runHistory := func(h int) {
 		rng := r.Stream(fmt.Sprintf("c06-%d", h))
 		withDefault := rng.IntN(2) == 0
@@ -381,6 +410,7 @@ func TestC06(t *testing.T) {
 				pool = append(pool, c06Exprs[i])
 			}
 		}
+		shortIDs := rng.IntN(2) == 0 // rule ids unique within a rule set only
 		state := map[string]version{}
 		gone := map[string]version{}
 		var hist []c06Op
@@ -409,21 +439,38 @@ func TestC06(t *testing.T) {
 				op = c06Op{Kind: "update", Src: src, V: genVersion(rng, pool, src, cur)}
 			}
 			var opErr error
-			func() {
+			done := make(chan error, 1)
+			go func() {
+				var err error
 				defer func() {
 					if x := recover(); x != nil {
-						opErr = fmt.Errorf("PANIC in heimdall: %v", x)
+						err = fmt.Errorf("PANIC in heimdall: %v", x)
 					}
+					done <- err
 				}()
 				switch op.Kind {
 				case "create":
-					opErr = live.Proc.OnCreated(toRuleSet(src, op.V))
+					err = live.Proc.OnCreated(toRuleSet(src, op.V, shortIDs))
 				case "update":
-					opErr = live.Proc.OnUpdated(toRuleSet(src, op.V))
+					err = live.Proc.OnUpdated(toRuleSet(src, op.V, shortIDs))
 				case "delete":
-					opErr = live.Proc.OnDeleted(toRuleSet(src, nil))
+					err = live.Proc.OnDeleted(toRuleSet(src, nil, shortIDs))
 				}
 			}()
+			select {
+			case opErr = <-done:
+			case <-time.After(2 * time.Minute):
+				// nothing else uses this instance: a change that does not return (it takes microseconds) waits for a lock
+				// nobody will release
+				hist = append(hist, op)
+				r.Violation("change-never-returned", fmt.Sprintf("%s of %s did not return within two minutes on an instance used by this history alone", op.Kind, src),
+					c06Case{withDefault, hist, step, cloneState(state), "", "", "the change is applied or rejected", "blocked", "statement"})
+				failed = true
+				blocked.Store(true) // every further history would wait its two minutes as well
+			}
+			if failed {
+				break
+			}
 			op.Accepted = opErr == nil
 			if opErr != nil {
 				op.Err = opErr.Error()
@@ -517,7 +564,7 @@ func TestC06(t *testing.T) {
 						}
 					}
 					for _, s := range ks {
-						if err := fresh.Proc.OnCreated(toRuleSet(s, state[s])); err != nil {
+						if err := fresh.Proc.OnCreated(toRuleSet(s, state[s], shortIDs)); err != nil {
 							r.Violation("fresh-load-rejects-current-state", "the state reached by the history cannot be loaded into an empty instance: "+err.Error(),
 								mk(probeReq{}, "loadable", err.Error(), "fresh-instance"))
 							failed = true
@@ -558,7 +605,7 @@ func TestC06(t *testing.T) {
 		go func() {
 			defer wg.Done()
 			for h := range next {
-				if r.Violations() < 20 {
+				if r.Violations() < 20 && !blocked.Load() {
 					runHistory(h)
 				}
 			}
